@@ -59,6 +59,7 @@ type AssertRec struct {
 	Pos     string
 	Status  string // proved, trivial, violated, unknown
 	Model   []string
+	Tags    []string
 	Harness string
 }
 
@@ -68,7 +69,8 @@ type specAbort struct{}
 type frame struct {
 	phiDone *ssa.BasicBlock // phis of this block were already set by if-conversion
 	fn      *ssa.Function
-	env     map[ssa.Value]Value
+	env     []Value            // indexed by the function's static value numbering
+	idx     map[ssa.Value]int  // shared, read-only
 	defers  []deferred
 	panic   *goPanic
 	visits  map[*ssa.BasicBlock]int
@@ -487,6 +489,11 @@ func (w *W) Assert(c *smt.Term, label string) {
 		case smt.Sat:
 			rec.Status = "violated"
 			rec.Model = w.modelStrings(m)
+			for _, n := range w.nondets {
+				if !n.Internal {
+					rec.Tags = append(rec.Tags, n.Tag)
+				}
+			}
 		default:
 			rec.Status = "unknown"
 		}
@@ -588,7 +595,12 @@ func (w *W) get(fr *frame, v ssa.Value) Value {
 	case *ssa.Builtin:
 		return FuncV{Name: "builtin:" + x.Name()}
 	}
-	r, ok := fr.env[v]
+	i, ok := fr.idx[v]
+	var r Value
+	if ok {
+		r = fr.env[i]
+		ok = r != nil
+	}
 	if !ok {
 		panic(fmt.Sprintf("sx: no value for %s (%T) in %s", v.Name(), v, fr.fn))
 	}
@@ -651,15 +663,16 @@ func (w *W) callFunc(fn *ssa.Function, bind []Value, args []Value) Value {
 	if w.funcsHit != nil && w.initDepth == 0 {
 		w.funcsHit[fn] = true
 	}
-	fr := &frame{fn: fn, env: make(map[ssa.Value]Value, 16), caller: w.top}
+	info := w.E.funcInfo(fn)
+	fr := &frame{fn: fn, env: make([]Value, info.n), idx: info.idx, caller: w.top}
 	if len(args) != len(fn.Params) {
 		panic(fmt.Sprintf("sx: %s called with %d args, wants %d", name, len(args), len(fn.Params)))
 	}
 	for i, p := range fn.Params {
-		fr.env[p] = args[i]
+		fr.set(p, args[i])
 	}
 	for i, fv := range fn.FreeVars {
-		fr.env[fv] = bind[i]
+		fr.set(fv, bind[i])
 	}
 	saved := w.top
 	savedPos := w.curPos
@@ -795,7 +808,7 @@ func (w *W) execBlock(fr *frame, b, prev *ssa.BasicBlock) (next *ssa.BasicBlock,
 		nphi++
 	}
 	for i := 0; i < nphi && !skipPhi; i++ {
-		fr.env[b.Instrs[i].(*ssa.Phi)] = phiVals[i]
+		fr.set(b.Instrs[i].(*ssa.Phi), phiVals[i])
 	}
 	for _, ins := range b.Instrs[nphi:] {
 		w.steps++
@@ -867,7 +880,7 @@ func (w *W) execBlock(fr *frame, b, prev *ssa.BasicBlock) (next *ssa.BasicBlock,
 			w.mapSet(m.M, w.get(fr, x.Key), w.get(fr, x.Value))
 		case *ssa.DebugRef:
 		case ssa.Value:
-			fr.env[x] = w.evalValue(fr, x)
+			fr.set(x, w.evalValue(fr, x))
 		default:
 			w.unsupported(fmt.Sprintf("instruction %T", ins))
 		}
@@ -1240,10 +1253,10 @@ func (w *W) ifConvert(fr *frame, a *ssa.BasicBlock, c *smt.Term) (join *ssa.Basi
 			for _, ins := range blk.Instrs[:len(blk.Instrs)-1] {
 				if v, isVal := ins.(ssa.Value); isVal {
 					if phi, isPhi := ins.(*ssa.Phi); isPhi {
-						fr.env[phi] = w.get(fr, phi.Edges[0])
+						fr.set(phi, w.get(fr, phi.Edges[0]))
 						continue
 					}
-					fr.env[v] = w.evalValue(fr, v)
+					fr.set(v, w.evalValue(fr, v))
 				}
 			}
 		}
@@ -1286,7 +1299,7 @@ func (w *W) ifConvert(fr *frame, a *ssa.BasicBlock, c *smt.Term) (join *ssa.Basi
 		if !isPhi {
 			break
 		}
-		fr.env[phi] = phiVals[i]
+		fr.set(phi, phiVals[i])
 		i++
 	}
 	fr.phiDone = join
@@ -1303,4 +1316,57 @@ func kinds(ds []Decision) string {
 		}
 	}
 	return string(b)
+}
+
+// ---- static value numbering ----------------------------------------------------
+
+type fnInfo struct {
+	idx map[ssa.Value]int
+	n   int
+}
+
+func (e *Engine) funcInfo(fn *ssa.Function) *fnInfo {
+	if v, ok := e.fnInfos.Load(fn); ok {
+		return v.(*fnInfo)
+	}
+	info := &fnInfo{idx: map[ssa.Value]int{}}
+	add := func(v ssa.Value) {
+		if _, ok := info.idx[v]; !ok {
+			info.idx[v] = info.n
+			info.n++
+		}
+	}
+	for _, p := range fn.Params {
+		add(p)
+	}
+	for _, fv := range fn.FreeVars {
+		add(fv)
+	}
+	for _, b := range fn.Blocks {
+		for _, ins := range b.Instrs {
+			if v, ok := ins.(ssa.Value); ok {
+				add(v)
+			}
+		}
+	}
+	if fn.Recover != nil {
+		for _, ins := range fn.Recover.Instrs {
+			if v, ok := ins.(ssa.Value); ok {
+				add(v)
+			}
+		}
+	}
+	e.fnInfos.Store(fn, info)
+	return info
+}
+
+// nilValue marks "assigned the untyped nil Value" (a Range/Next key of an
+// ignored variable) so that it is distinguishable from "never assigned".
+type nilValue struct{}
+
+func (fr *frame) set(v ssa.Value, val Value) {
+	if val == nil {
+		val = nilValue{}
+	}
+	fr.env[fr.idx[v]] = val
 }
